@@ -365,7 +365,7 @@ pub fn run(ctx: &mut Ctx) {
     ctx.rule("SP: the endpoint writes 1..200 segments; the scripted peer produces generated acknowledgement histories (cumulative advances, k identical ACKs, SACK bitmaps of 1/4/8/32 bytes, stale ACKs, ACKs beyond what was sent, silence up to 140 s, peer data) plus canonical fast-retransmit scenarios; max_retransmissions 1..7, inactivity limit 10 s or 1 h. Oracle over the wire log: acked/SACKed seq never retransmitted, stable content, timer retransmissions not before 200 ms, successive timeouts double (400 ms..60 s, +-2 ms), only the oldest segment per timeout, <= 1+max_retransmissions transmissions then failure, third duplicate => retransmission at that instant and not before. non-trivial = (timeout chain >= 2 or fast retransmit) and >= 1 SACK processed; distinct by hash of (seq, transmission count, timer-driven) sequence");
     ctx.assume("an ack injected at the same instant as a retransmission counts as not yet processed");
     ctx.replay_corpus::<Sp>();
-    ctx.run_generated::<Sp>(ctx.tier.pick(60_000, 200_000));
+    ctx.run_generated::<Sp>(ctx.tier.pick(60_000, 2_000_000));
 }
 
 pub fn replay(v: &Value) -> Option<i32> {
